@@ -67,7 +67,9 @@ def to_py(x):
                 i += 1
                 try:
                     j = _loads(v)
-                except json.JSONDecodeError:
+                    json.dumps(j, indent=4)      # the decoder probes that the value can be printed again
+                except (ValueError, RecursionError):
+                    # not JSON, or beyond the interpreter's limits (integer digits, nesting depth): hex dump
                     j = list(fb)
                 if isinstance(j, dict):
                     out.update(j)
@@ -197,6 +199,8 @@ def first_diff(a, b, path=""):
         return None
     if isinstance(a, str) and isinstance(b, str) and a.endswith("Exception=@exc") and b.startswith(a[:-4]):
         return None     # the text of a shipped plugin's exception is not modelled
+    if isinstance(a, float) and isinstance(b, float) and repr(a) == repr(b):
+        return None     # nan == nan here: the same float is shown
     if type(a) != type(b) or a != b:
         return "%s: %r vs %r" % (path, a if not isinstance(a, (dict, list)) else type(a).__name__,
                                  b if not isinstance(b, (dict, list)) else type(b).__name__)
